@@ -51,6 +51,20 @@ def _neg_id(a):
 
 def neg_id(a): return _neg_id(a)
 
+# learned nogoods: sets of node ids that cannot hold together (UNSAT cores returned by the pruning solver).  And() consults
+# them, so a combination once refuted is recognised syntactically wherever it recurs.
+NOGOODS = {}        # member id -> list of frozenset(ids)
+NG_STATS = {'learned': 0, 'hits': 0}
+def learn_nogood(ids):
+    ids = frozenset(ids)
+    if not ids or len(ids) > 8: return
+    k = min(ids)
+    L = NOGOODS.setdefault(k, [])
+    if ids in L: return
+    L.append(ids); NG_STATS['learned'] += 1
+def reset_nogoods():
+    NOGOODS.clear(); NG_STATS['learned'] = 0; NG_STATS['hits'] = 0
+
 def And(*xs):
     out = []; seen = set()
     stack = list(reversed(xs))
@@ -136,6 +150,13 @@ def And(*xs):
         if changed: return And(*out)
     if not out: return TRUE
     if len(out) == 1: return out[0]
+    if NOGOODS:
+        for x in out:
+            L = NOGOODS.get(x.id)
+            if L:
+                for ng in L:
+                    if ng <= seen:
+                        NG_STATS['hits'] += 1; return FALSE
     out.sort(key=lambda e: e.id)
     return _mk('and', tuple(out), 'B')
 
